@@ -19,7 +19,7 @@ TITLES = {
  "C17": "garbage collection removes expired and ephemeral events and nothing else",
 }
 
-EXTRA_RUN = {"C01": ["RELAY"]}     # C01 also runs the live-matching suite of the relay model
+EXTRA_RUN = {"C01": ["RELAY", "Filt"], "C02": ["RELAY", "Filt"], "C11": ["Filt"], "C12": ["Filt"]}     # C01 also runs the live-matching suite of the relay model; all query properties tie filter validation
 
 
 def blocks(path):
